@@ -1,7 +1,7 @@
 --------------------------- MODULE MC_CodeLayout ---------------------------
 (***************************************************************************)
 (* Bounded instance for C02 (code layout).  A case is an item list of at   *)
-(* most 6 items; it is drawn in two Next steps (shape, then pad sizes) and *)
+(* most 7 items; it is drawn in two Next steps (shape, then pad sizes) and *)
 (* then laid out by the operational part of CodeLayout, one TLC state per  *)
 (* loop iteration of write_code.  Families:                                *)
 (*   one    - one far jump (if / goto / jsr), forward and backward, at     *)
